@@ -221,6 +221,21 @@ func compress(c []int) string {
 // processes and records coverage and violations in c; inside a worker it explores its
 // shard, prints JSON and exits.
 func Explore(c *vf.Ctx, scs []Scenario) {
+	// development aid: VERIF_SCENARIO=<regexp> restricts the run to matching scenarios (the run is
+	// then reported as not exhaustive); workers inherit the variable and filter identically
+	if pat := os.Getenv("VERIF_SCENARIO"); pat != "" {
+		re := regexp.MustCompile(pat)
+		var f []Scenario
+		for _, s := range scs {
+			if re.MatchString(s.Name) {
+				f = append(f, s)
+			}
+		}
+		scs = f
+		if _, _, ok := sched.ShardEnv(); !ok {
+			c.Capped("VERIF_SCENARIO filter active: " + pat)
+		}
+	}
 	if shard, n, ok := sched.ShardEnv(); ok {
 		res := worker(scs, shard, n, c.Expired)
 		b, _ := json.Marshal(res)
